@@ -94,6 +94,7 @@ def _bigint_mode(ctx, base, wig, mode):
 def check_extrema(ctx, x, pad, mode, parabolic, mag_pad_opts=None, tag='enum'):
     from emd import sift as S
     xin, x = x, np.asarray(x, dtype=float)
+    pad_arg, pad = pad, int(pad)        # (the library gets the width in the form it was given, the reference computes with a plain int)
     case = {'kind': 'extrema', 'x': x, 'pad_width': pad, 'mode': mode, 'parabolic': parabolic, 'mag_pad_opts': mag_pad_opts}
     n = len(x)
     rl, rm = R.detect_extrema(x, mode, parabolic)
@@ -102,7 +103,7 @@ def check_extrema(ctx, x, pad, mode, parabolic, mag_pad_opts=None, tag='enum'):
         kw['mag_pad_opts'] = dict(mag_pad_opts)
     try:
         PADMON.arm(n)
-        locs, mags = S.get_padded_extrema(xin if xin.base is not None else xin.copy(), pad_width=pad, mode=mode, parabolic_extrema=parabolic, **kw)
+        locs, mags = S.get_padded_extrema(xin if xin.base is not None else xin.copy(), pad_width=pad_arg, mode=mode, parabolic_extrema=parabolic, **kw)
     except MonitorAbort as e:
         ctx.case(('e', x.tobytes(), pad, mode, parabolic), True)
         ctx.violation('padding-unbounded', 'get_padded_extrema did not finish padding within its logical step bound: %s' % e, case)
@@ -196,12 +197,13 @@ def check_extrema(ctx, x, pad, mode, parabolic, mag_pad_opts=None, tag='enum'):
 def check_envelope(ctx, x, pad, mode, interp, parabolic):
     from emd import sift as S
     xin, x = x, np.asarray(x, dtype=float)
+    pad_arg, pad = pad, int(pad)
     case = {'kind': 'envelope', 'x': x, 'pad_width': pad, 'mode': mode, 'interp_method': interp, 'parabolic': parabolic}
     n = len(x)
     rl, rm = R.detect_extrema(x, R.MODE_MAP[mode], parabolic)
     nontriv = len(rl) > 1
     ctx.case(digest(x, pad, mode, interp, parabolic, 'e'), nontriv)
-    xo = {'pad_width': pad, 'parabolic_extrema': parabolic}
+    xo = {'pad_width': pad_arg, 'parabolic_extrema': parabolic}
     try:
         PADMON.arm(n)
         r = S.interp_envelope(xin if xin.base is not None else xin.copy(), mode=mode, interp_method=interp, extrema_opts=xo, ret_extrema=True)
@@ -320,6 +322,9 @@ def _run_shard(ctx):
         x = xp          # (check_* compute their reference from the float64 values of whatever is passed)
         ctx.count('presentation:' + tag)
         pad = int(rng.integers(0, 6))
+        if rng.random() < .2:
+            pad = gens.pick(rng, [np.int8, np.int16, np.int64])(pad)       # the width as a numpy integer (what a configuration array yields)
+            ctx.count('pad_width_passed_as_numpy_integer')
         parabolic = bool(rng.random() < .5)
         mode = gens.pick(rng, MODES)
         mpo = gens.pick(rng, [{'mode': 'mean', 'stat_length': 2}, {'mode': 'maximum', 'stat_length': 2}, {'mode': 'minimum', 'stat_length': 3},
